@@ -151,3 +151,27 @@ func (p *PcClient) updateProcess(procInfo *types.ProcessConfig) error {
 	}
 	return errors.New(respErr.Error)
 }
+
+func (p *PcClient) getProcessLog(name string, offsetFromEnd, limit int) ([]string, error) {
+	url := fmt.Sprintf("http://%s/process/logs/%s/%d/%d", p.address, name, offsetFromEnd, limit)
+	resp, err := p.client.Get(url)
+	if err != nil {
+		return nil, err
+	}
+	defer resp.Body.Close()
+	if resp.StatusCode != http.StatusOK {
+		var respErr pcError
+		if err = json.NewDecoder(resp.Body).Decode(&respErr); err != nil {
+			log.Err(err).Msg("failed to decode error response")
+			return nil, err
+		}
+		return nil, errors.New(respErr.Error)
+	}
+	var sResp struct {
+		Logs []string `json:"logs"`
+	}
+	if err := json.NewDecoder(resp.Body).Decode(&sResp); err != nil {
+		return nil, err
+	}
+	return sResp.Logs, nil
+}
